@@ -146,4 +146,50 @@ example : prepareSpeedtest ⟨"GET", "/101mb.bin".toList, false, false, none⟩ 
 example : prepareSpeedtest ⟨"GET", "/0mb.bin".toList, false, false, none⟩ = .bad := by decide +kernel
 example : prepareSpeedtest ⟨"GET", "/speed/7mb.bin".toList, false, false, none⟩ = .download (7 * mib) := by decide +kernel
 
+/-- **The origin can trust X-Original-Protocol**: whatever the client put under that name, every header
+of that name in the request sent to the origin carries the protocol the client really used -/
+theorem original_protocol_not_forgeable (proto : Proto) (c : Bool) (m : String) (p : List Char)
+    (hs : List (String × String)) (v : String)
+    (h : ("x-original-protocol", v) ∈ (translate proto c m p hs).headers) : v = protoStr proto := by
+  simp only [translate, insertHeader] at h
+  split at h
+  · obtain ⟨x, _, hx⟩ := List.mem_map.1 h
+    split at hx
+    · exact (Prod.mk.inj hx).2.symm
+    · rename_i hne
+      rw [hx] at hne
+      simp at hne
+  · rename_i hany
+    rcases List.mem_append.1 h with h | h
+    · exact absurd (List.any_eq_true.2 ⟨_, h, by simp⟩) hany
+    · simp at h
+      exact h
+
+/-- a disabled speed test is never selected, and HTTP/2 requests never reach the reverse proxy -/
+theorem disabled_channels_never_selected (cfg : Cfg) (proto : Proto) (r : ReqView) :
+    (cfg.speedtestEnable = false → select cfg proto r ≠ .speedtest) ∧
+    (cfg.pathMask = none → select cfg proto r ≠ .reverseProxy) ∧
+    (select cfg .h2 r ≠ .reverseProxy) := by
+  refine ⟨fun h => ?_, fun h => ?_, ?_⟩
+  · have hs : checkSpeedtest cfg r = false := by simp [checkSpeedtest, h]
+    unfold select
+    rw [hs]
+    by_cases h1 : r.pingMarker = true <;> by_cases h2 : checkReverseProxy cfg proto r = true <;> simp [h1, h2]
+  · have hs : checkReverseProxy cfg proto r = false := by simp [checkReverseProxy, h]
+    unfold select
+    rw [hs]
+    by_cases h1 : r.pingMarker = true <;> by_cases h2 : checkSpeedtest cfg r = true <;> simp [h1, h2]
+  · have hs : checkReverseProxy cfg .h2 r = false := by simp [checkReverseProxy]
+    unfold select
+    rw [hs]
+    by_cases h1 : r.pingMarker = true <;> by_cases h2 : checkSpeedtest cfg r = true <;> simp [h1, h2]
+
+/-- the download never hands out more than was asked for, however the client takes it -/
+theorem download_never_exceeds (n : Nat) (quotas : List Nat) : (downloadLoop n quotas).1 ≤ n := by
+  have := download_exact n quotas
+  omega
+
+example : (translate .h3 false "GET" ['/'] [("x-original-protocol", "HTTP1"), ("a", "b")]).headers =
+    [("x-original-protocol", "HTTP3"), ("a", "b")] := by decide
+
 end TT.Services
